@@ -215,7 +215,7 @@ class ECDHESAlgModel(JWEKeyAgreement):
 
         shared_key = ephemeral_key.exchange_derive_key(recipient_key)
         headers = recipient.headers()
-        return derive_key_for_concat_kdf(shared_key, headers, enc.cek_size, self.key_size)
+        return derive_key_for_concat_kdf(shared_key, {**headers, "enc": enc.name}, enc.cek_size, self.key_size)
 
     def decrypt_agreed_upon_key(self, enc: JWEEncModel, recipient: Recipient[ECKey]) -> bytes:
         headers = recipient.headers()
@@ -227,7 +227,7 @@ class ECDHESAlgModel(JWEKeyAgreement):
         self.check_key_type(recipient_key)
         ephemeral_key = recipient_key.import_key(headers["epk"])
         shared_key = recipient_key.exchange_derive_key(ephemeral_key)
-        return derive_key_for_concat_kdf(shared_key, headers, enc.cek_size, self.key_size)
+        return derive_key_for_concat_kdf(shared_key, {**headers, "enc": enc.name}, enc.cek_size, self.key_size)
 
 
 class PBES2HSAlgModel(JWEKeyEncryption):
